@@ -2,6 +2,7 @@ package main
 
 import (
 	"bufio"
+	"encoding/binary"
 	"fmt"
 	"math"
 	"math/rand"
@@ -72,16 +73,43 @@ func newFramedDecoder(alg compression.Algorithm, wire *fragPipe) *encoding.Proto
 
 // ---------------------------------------------------------------- messages
 
-func randBytes(r *rand.Rand, n int, compressible bool) []byte {
-	b := make([]byte, n)
-	if compressible {
-		for i := range b {
-			b[i] = byte('a' + (i/7+r.Intn(2))%5)
+// Payload bytes are slices of two shared read-only pools (incompressible
+// noise and compressible text): generating megabytes byte by byte under the
+// race detector would dominate the run without adding any diversity that
+// matters to framing.
+var (
+	poolOnce  sync.Once
+	noisePool []byte
+	textPool  []byte
+)
+
+const poolSize = 4 << 20
+
+func pools() {
+	poolOnce.Do(func() {
+		noisePool = make([]byte, poolSize)
+		textPool = make([]byte, poolSize)
+		x := uint64(0x9e3779b97f4a7c15)
+		for i := 0; i+8 <= poolSize; i += 8 {
+			x ^= x << 13
+			x ^= x >> 7
+			x ^= x << 17
+			binary.LittleEndian.PutUint64(noisePool[i:], x)
+			binary.LittleEndian.PutUint64(textPool[i:], 0x6161616161616161+(x&0x0303030300000003))
 		}
-	} else {
-		r.Read(b)
+	})
+}
+
+func randBytes(r *rand.Rand, n int, compressible bool) []byte {
+	pools()
+	if n > poolSize {
+		n = poolSize
 	}
-	return b
+	off := r.Intn(poolSize - n + 1)
+	if compressible {
+		return textPool[off : off+n : off+n]
+	}
+	return noisePool[off : off+n : off+n]
 }
 
 func randSignature(r *rand.Rand, blocks int) *rsync.Signature {
@@ -266,7 +294,7 @@ func (c *c22Case) describe() map[string]any {
 	return map[string]any{"case": c.Index, "algorithm": c.Alg.String(), "fragment_style": c.Style, "pipe_seed": c.Seed, "messages(type/size/flushes)": shape}
 }
 
-func genC22Case(r *rand.Rand, index int, quick bool) *c22Case {
+func genC22Case(r *rand.Rand, index int, largeEvery int) *c22Case {
 	c := &c22Case{Index: index, Seed: r.Int63(), Style: r.Intn(fragStyles)}
 	c.Alg = []compression.Algorithm{compression.Algorithm_AlgorithmNone, compression.Algorithm_AlgorithmDeflate}[index%2]
 	n := 1 + r.Intn(30)
@@ -277,7 +305,10 @@ func genC22Case(r *rand.Rand, index int, quick bool) *c22Case {
 		maxLarge = (1 << 20) + 4096
 		largeBudget = 1
 	}
-	wantLarge := index%4 == 0
+	// Messages >= 1 MiB are expensive under the race detector (shadow memory
+	// of every large allocation is remapped), so only every largeEvery-th
+	// pair of cases (one per algorithm) carries them.
+	wantLarge := (index/2)%largeEvery == 0
 	for i := 0; i < n; i++ {
 		class := []int{0, 1, 1, 1, 2, 2, 2, 3}[r.Intn(8)]
 		if wantLarge && largeBudget > 0 && (r.Intn(n) == 0 || i == n-1) {
@@ -576,36 +607,55 @@ func c22() {
 	r := vk.Start("C22", "exploration")
 
 	// Sequential part first (allocation is measured process-wide).
+	t0 := time.Now()
 	c22Oversize(r)
+	r.Note("oversize_phase_s", time.Since(t0).Seconds())
 
 	n := r.Pick(400, 12000)
-	cases := make([]*c22Case, n)
+	largeEvery := r.Pick(16, 8)
+	seeds := make([]int64, n)
 	rng := r.Rand("cases")
-	for i := range cases {
-		cases[i] = genC22Case(rand.New(rand.NewSource(rng.Int63())), i, r.Quick())
+	for i := range seeds {
+		seeds[i] = rng.Int63()
 	}
-	// Deterministic hand-made cases in front: empty-only, one large, empty after large.
-	for i, alg := range []compression.Algorithm{compression.Algorithm_AlgorithmNone, compression.Algorithm_AlgorithmDeflate} {
-		rr := r.Rand(fmt.Sprintf("fixed-%d", i))
-		big := randMessage(rr, 4, 2<<20)
-		cases = append(cases,
-			&c22Case{Index: n + 3*i, Alg: alg, Style: 3, Seed: rr.Int63(), msgs: []proto.Message{&remote.PollCompletionRequest{}}, flush: []int{1}},
-			&c22Case{Index: n + 3*i + 1, Alg: alg, Style: 4, Seed: rr.Int63(), msgs: []proto.Message{&remote.ScanCompletionRequest{}, big, &remote.PollCompletionRequest{}, &remote.PollCompletionRequest{}}, flush: []int{0, 1, 1, 2}},
-			&c22Case{Index: n + 3*i + 2, Alg: alg, Style: 1, Seed: rr.Int63(), msgs: []proto.Message{&remote.EndpointRequest{Poll: &remote.PollRequest{}}, &remote.PollCompletionRequest{}}, flush: []int{1, 1}},
-		)
+	// A case is a pure function of (index, seed); it is generated by the worker
+	// that runs it so that generation is parallel and cases are not all alive at once.
+	fixedAlgs := []compression.Algorithm{compression.Algorithm_AlgorithmNone, compression.Algorithm_AlgorithmDeflate}
+	build := func(index int) *c22Case {
+		if index < n {
+			return genC22Case(rand.New(rand.NewSource(seeds[index])), index, largeEvery)
+		}
+		// Deterministic hand-made cases at the end: empty-only, empty/large/empty, tiny with 1-byte fragments.
+		k := index - n
+		alg := fixedAlgs[k/3]
+		rr := r.Rand(fmt.Sprintf("fixed-%d", k))
+		switch k % 3 {
+		case 0:
+			return &c22Case{Index: index, Alg: alg, Style: 3, Seed: rr.Int63(), msgs: []proto.Message{&remote.PollCompletionRequest{}}, flush: []int{1}}
+		case 1:
+			big := randMessage(rr, 4, 2<<20)
+			return &c22Case{Index: index, Alg: alg, Style: 4, Seed: rr.Int63(), msgs: []proto.Message{&remote.ScanCompletionRequest{}, big, &remote.PollCompletionRequest{}, &remote.PollCompletionRequest{}}, flush: []int{0, 1, 1, 2}}
+		default:
+			return &c22Case{Index: index, Alg: alg, Style: 1, Seed: rr.Int63(), msgs: []proto.Message{&remote.EndpointRequest{Poll: &remote.PollRequest{}}, &remote.PollCompletionRequest{}}, flush: []int{1, 1}}
+		}
 	}
+	total := n + 6
 
 	workers := runtime.NumCPU()
 	if workers > 16 {
 		workers = 16
 	}
-	ch := make(chan *c22Case)
+	ch := make(chan int)
 	var wg sync.WaitGroup
 	for w := 0; w < workers; w++ {
 		wg.Add(1)
 		go func() {
 			defer wg.Done()
-			for c := range ch {
+			for index := range ch {
+				c := build(index)
+				if index < 3 {
+					r.Sample(c.describe())
+				}
 				t0 := time.Now()
 				r.Guard(c.describe(), func() { runC22Case(r, c) })
 				r.Eval(1)
@@ -615,15 +665,17 @@ func c22() {
 			}
 		}()
 	}
-	for i, c := range cases {
-		if i < 3 {
-			r.Sample(c.describe())
+	only := os.Getenv("VERIF_CASE") // development/replay aid: run a single case index
+	for i := 0; i < total; i++ {
+		if only != "" && only != fmt.Sprint(i) {
+			continue
 		}
-		ch <- c
+		ch <- i
 	}
 	close(ch)
 	wg.Wait()
 
+	stopProfile()
 	r.Assume("the writer and reader stacks are rebuilt in the monitor with the same constructors, order and 64 KiB buffer sizes as remote.NewEndpoint/ServeEndpoint (the sizes are unexported constants)")
 	r.Assume("zstandard is not built into this binary (SSPL tag off); algorithms none and deflate are covered")
 	r.Finish("random sequences of real control-stream messages (empty, tiny, medium, 32/64/128 KiB boundary, >= 1 MiB) with random flush points over a pipe with 5 fragmentation styles, both algorithms, plus crafted oversize length prefixes; distinct = (algorithm, fragmentation style, type and size class of the message at the flush point, messages since previous flush, flushes) for flush points where every written message had been decoded before the reader starved, plus (algorithm, size, style) of rejected oversize prefixes", 40)
